@@ -26,6 +26,14 @@ var Quiet = func() *log.OrdaLog {
 	return q
 }()
 
+// QuietClient silences a client's logger (SetLogger is exported on the implementation
+// but not part of the Client interface).
+func QuietClient(c orda.Client) {
+	if sl, ok := c.(interface{ SetLogger(*log.OrdaLog) }); ok {
+		sl.SetLogger(Quiet)
+	}
+}
+
 // Types of datatypes the engine drives.
 var Types = []string{"counter", "map", "list", "doc"}
 
@@ -68,6 +76,7 @@ type Rep struct {
 // NewRep creates a LOCAL_ONLY client with one datatype of the given type.
 func NewRep(idx int, typ string) *Rep {
 	c := orda.NewClient(orda.NewLocalClientConfig("col"), "c"+strconv.Itoa(idx))
+	QuietClient(c)
 	var dt orda.Datatype
 	switch typ {
 	case "list":
